@@ -294,8 +294,10 @@ def run_chain(job):
         return [('machinery', 'machinery', f'{type(e).__name__}: {e}\n{traceback.format_exc()}')]
 
 
-def dateline_gridder(h_deg=0.01, ncell=4):
-    key = ('dl', h_deg, ncell)
+def dateline_gridder(h_deg=0.01, ncell=4, axes='float'):
+    """axes: the altitude / time axes as float arrays in metres / seconds, or (GridSegment.tla AxisForms "whole") as
+    INTEGER arrays in kilometres / ten-minute units - a point between two levels is then not a whole number of units"""
+    key = ('dl', h_deg, ncell, axes)
     if key not in _g:
         h = np.deg2rad(h_deg)
         ks = np.arange(0, ncell + 1)
@@ -304,7 +306,10 @@ def dateline_gridder(h_deg=0.01, ncell=4):
         lon_lines = np.concatenate([east, west])
         lat_lines = np.arange(-PAD, 2 + PAD + 1) * h
         ks2 = np.arange(-PAD, 2 + PAD + 1)
-        _g[key] = (gridder_mod().Gridder(lat_lines, lon_lines, (ks2 + PAD) * 1000.0, (ks2 + PAD) * 600.0), h)
+        if axes == 'whole':
+            _g[key] = (gridder_mod().Gridder(lat_lines, lon_lines, (ks2 + PAD).astype(np.int64), (ks2 + PAD).astype(np.int64)), h)
+        else:
+            _g[key] = (gridder_mod().Gridder(lat_lines, lon_lines, (ks2 + PAD) * 1000.0, (ks2 + PAD) * 600.0), h)
     return _g[key]
 
 
@@ -348,9 +353,12 @@ def run_along(case):
 def run_dateline(case):
     warnings.simplefilter('ignore')
     try:
-        g, h = dateline_gridder()
-        M = 8
         c = case['c']
+        # GridSegment.tla AxisForms: every second case on a grid whose altitude / time axes are integer arrays
+        whole = (c['a'] + c['b'] + c['ys'] + c['as']) % 2 == 1
+        ua, ut = (1.0, 1.0) if whole else (1000.0, 600.0)
+        g, h = dateline_gridder(axes='whole' if whole else 'float')
+        M = 8
 
         def lon_of(x):
             d = (x - M) / Q
@@ -360,8 +368,8 @@ def run_dateline(case):
         lons = np.array([lon_of(case['xs']), lon_of(case['xe'])])
         lats = np.array([lat(c['ys']), lat(c['ye'])])
         devs = []
-        alts = (np.array([c['as'], 3]) / Q + PAD) * 1000.0
-        times = (np.array([c['ts'], 5]) / Q + PAD) * 600.0
+        alts = (np.array([c['as'], 3]) / Q + PAD) * ua
+        times = (np.array([c['ts'], 5]) / Q + PAD) * ut
         try:
             tl, to, ta, tt, sv, iv = grid_twice(g, lats, lons, alts, times, state_variables=(np.array([7.0, 9.0]), np.array([70.0, 90.0])), integrated_variables=(np.array([VALUE]), whole_var()))
         except Exception as e:
@@ -370,10 +378,10 @@ def run_dateline(case):
         if not (len(to) == n and len(sv[0]) == n and len(iv[0]) == n and len(ta) == n and len(tt) == n):
             return [('C05', 'misaligned-lengths', f'antimeridian case {c}: output lengths differ')]
         live = [i for i in range(n) if abs(float(iv[0][i])) > 1e-9 * VALUE]
-        ac = {int(round(ta[i] / 1000.0)) - PAD for i in live}
-        tc = {int(round(tt[i] / 600.0)) - PAD for i in live}
+        ac = {int(round(ta[i] / ua)) - PAD for i in live}
+        tc = {int(round(tt[i] / ut)) - PAD for i in live}
         if ac - {case['acell']} or tc - {case['tcell']}:
-            devs.append(('C05', 'dateline-altitude-or-time-cell', f'antimeridian case {c}: pieces carry altitude cells {sorted(ac)} and time cells {sorted(tc)}; specification: those of the start point ({case["acell"]}, {case["tcell"]})'))
+            devs.append(('C05', 'dateline-altitude-or-time-cell', f'antimeridian case {c}{" (integer altitude / time axes)" if whole else ""}: pieces carry altitude cells {sorted(ac)} and time cells {sorted(tc)}; specification: those of the start point ({case["acell"]}, {case["tcell"]})'))
         if any(float(sv[0][i]) != 7.0 for i in live):
             devs.append(('C05', 'dateline-state-not-from-start-point', f'antimeridian case {c}: state values {sorted(set(np.asarray(sv[0]).tolist()))}; specification: 7.0'))
         # every state variable carries ITS OWN start-point value (two state variables: 7 / 9 and 70 / 90)
